@@ -70,8 +70,6 @@ for r in sorted(rej): print(r)
 print("machinery:", chk.machinery)
 good = {"good", "inv_good", "inv_p2_good", "opt_good", "mix_good", "late_good", "late_inv_good", "mag_good", "wshape_good", "zero_good", "tmag_good",
         "pnear_good", "optbad_good"}
-# (while F-03g / F-03h are unfixed in the tree under test, genuine CP events fail the index-spelling / mask clauses)
-rej = [r for r in rej if not (r[0] in good and r[1] in ("UnfoldedNeg", "Masked"))]
 ids = {r[0] for r in rej}
 assert not chk.machinery and not (ids & good) and len(ids) == len(evs) - len(good), ("self-test failed", ids & good)
 print("OK: %d corrupted events rejected, %d genuine events accepted" % (len(ids), len(good)))
